@@ -86,10 +86,14 @@ pub enum Edit {
     Unresolved,
     NonUtf8,
     Empty,
+    /// UTF-8 byte order mark in front of the text
+    Bom,
+    /// a NUL byte in the middle
+    Nul,
 }
 
 pub const VALID_EDITS: &[Edit] = &[Edit::AppendComment, Edit::PrependComment, Edit::MiddleBlankLine, Edit::TrailingSpace, Edit::AppendEpsilonRule, Edit::ToggleCrlf, Edit::ToggleCrlfOneLine, Edit::TabForSpaces];
-pub const ERROR_EDITS: &[Edit] = &[Edit::SyntaxError, Edit::Unresolved, Edit::NonUtf8, Edit::Empty];
+pub const ERROR_EDITS: &[Edit] = &[Edit::SyntaxError, Edit::Unresolved, Edit::NonUtf8, Edit::Empty, Edit::Bom, Edit::Nul];
 
 pub fn apply_edit(base: &[u8], e: Edit, n: u64) -> Vec<u8> {
     let mut v = base.to_vec();
@@ -134,6 +138,15 @@ pub fn apply_edit(base: &[u8], e: Edit, n: u64) -> Vec<u8> {
         Edit::Unresolved => v.extend_from_slice(format!("\nBadRule{n}: () = MissingSymbol => ();\n").as_bytes()),
         Edit::NonUtf8 => v.extend_from_slice(b"\n// \xff\xfe\n"),
         Edit::Empty => v.clear(),
+        Edit::Bom => {
+            let mut w = vec![0xef, 0xbb, 0xbf];
+            w.extend_from_slice(&v);
+            v = w;
+        }
+        Edit::Nul => {
+            let pos = v.len() / 2;
+            v.insert(pos, 0);
+        }
     }
     v
 }
